@@ -61,7 +61,12 @@ CHECKS = {
   note='kernel proofs: C integers treated as mathematical, numpy slices modelled as copies, callbacks pure; the module-level '
        '_filter glue is bounded, not proved; scipy conversions assumed (view-level model)'),
  'C09': _b('Contract of merge (pointwise sum over union / intersection, metadata policy, fast path = general path) over '
-           'pairs and k-tuples with disjoint / nested / partial / identical / permuted ID sets. Bounded only.'),
+           'pairs and k-tuples with disjoint / nested / partial / identical / permuted ID sets. Deductive part (Tier P): the two '
+           'helpers that decide which ids the merged table has and where they go - Table._union_id_order (exactly the union of '
+           'the two id lists, numbered 0..len-1 without gaps or repeats, in order of first occurrence in a followed by b) and '
+           'Table._intersect_id_order (exactly the ids of a that occur in b, numbered without gaps in the order of a; a '
+           'pairwise distinct as the representation invariant says). merge itself and _fast_merge are bounded only.',
+           technique=TECH),
  'C10': _b('Contract of Table.concat / biom.concat (blocks unchanged, zero padding, disjointness refused) for k = 1..3 '
            'operands, both axes. Bounded only.'),
  'C11': _b('Contracts of partition (exact split) and collapse (conservation; one-to-many add / divide) on exact '
